@@ -19,7 +19,7 @@ import (
 var vxOmitUniverse = []uint64{16, 17, 20, 100, 101, 102, 144, 200}
 
 func VxC10Trie2RangeOmission() {
-	vx.Bound("height 251; every 3-subset of the low bytes {16,17,20,100,101,102,144,200} as keys (interior edges on either boundary path, sibling leaves below one binary node, none), fixed distinct non-zero values (the verdict does not depend on them; hashes stay uninterpreted and are compared under the ideal-hash assumptions); range [first, k3] with first = k1 or k1+1 (absent, or the existing k2); honest proof from GetRangeProof over the hashed trie; responder omits any non-empty subset of the in-range keys other than k3 (or nothing: positive control)")
+	vx.Bound("height 251; every 3-subset of the low bytes {16,17,20,100,101,102,144,200} as keys (interior edges on either boundary path, sibling leaves below one binary node, none), fixed distinct non-zero values (the verdict does not depend on them; hashes stay uninterpreted and are compared under the ideal-hash assumptions); range [first, k3] with first = k1, k1+1 (absent, or the existing k2) or k1 rounded down to a multiple of 64 (absent, leaving k1's path inside an edge); honest proof from GetRangeProof over the hashed trie; responder omits any non-empty subset of the in-range keys other than k3 (or nothing: positive control)")
 	trieutils.VxCaseSplitFirstSetBit()
 	u := vxOmitUniverse
 	i0 := vx.Choice("k1", len(u)-2)
@@ -38,15 +38,21 @@ func VxC10Trie2RangeOmission() {
 	vx.NodeHashesSeparated()
 	vx.CollisionFree()
 
-	firstIsKey := vx.Choice("first-is-key", 2) == 1
 	first := ks[0]
 	lo := 0 // index of the first in-range key
-	if !firstIsKey {
+	switch vx.Choice("first-is-key", 3) {
+	case 0:
 		first = felt.FromUint64[felt.Felt](lay[0] + 1)
 		lo = 1
 		if lay[1] == lay[0]+1 {
 			vx.Cover("first-is-an-existing-leaf-below-a-binary-node")
 		}
+	case 2:
+		// an ABSENT first key below k1 that leaves k1's path inside an edge, to the lower side (k1 rounded
+		// down to a multiple of 64): the fork of the two boundary paths is an interior edge
+		vx.Assume(lay[0]&0x3f != 0)
+		first = felt.FromUint64[felt.Felt](lay[0] &^ 0x3f)
+		vx.Cover("first-is-absent-and-forks-off-inside-an-edge-below-k1")
 	}
 	proof := NewProofNodeSet()
 	vx.Assert(t.GetRangeProof(&first, &ks[2], proof) == nil, "prove-ok")
